@@ -301,6 +301,11 @@ func reifyStruct(opts *options, orig reflect.Value, cfg *Config) Error {
 				continue
 			}
 
+			// The references followed while one field is filled are no
+			// longer being evaluated when the next field is filled: two
+			// fields may refer to the same setting (as in reifyMap).
+			opts.activeFields = newFieldSet(parentFields)
+
 			if fInfo.tagOptions.squash {
 				vField := chaseValue(fInfo.value)
 				switch vField.Kind() {
@@ -634,10 +639,16 @@ func reifyDoArray(
 	val value,
 	arr []value,
 ) (reflect.Value, Error) {
+	// two elements may refer to the same setting: the references followed for
+	// one element are no longer being evaluated when the next one is filled
+	parentFields := opts.opts.activeFields
+	defer func() { opts.opts.activeFields = parentFields }()
+
 	aLen := len(arr)
 	tLen := to.Len()
 	for idx := 0; idx < tLen; idx++ {
 		if idx >= start && idx < start+aLen {
+			opts.opts.activeFields = newFieldSet(parentFields)
 			v, err := reifyMergeValue(opts, to.Index(idx), arr[idx-start])
 			if err != nil {
 				return reflect.Value{}, err
